@@ -10,6 +10,8 @@ Bytes are `Nat` (< 256), code points are `Nat`.  Core Lean only (the model drive
 * `copyCstr cap s`           — the contents of a `cap`-byte buffer after `copy_cstr(buf, s)`
                                (capi/src/io.rs, after the `fix:` commit: leave room for the NUL and step
                                back to a character boundary; before that commit `n = min cap len`);
+* `callerCopy cap s`         — the bytes `copy_cstr_to_caller` writes into a CALLER's buffer of `cap` bytes
+                               (`chewing_userphrase_get`); `fitCopy` — `chewing_phone_to_bopomofo`;
 * `cText buf`                — what a C reader sees: the bytes before the first NUL (`none`: no NUL
                                inside the buffer = the reader runs past the end);
 * `heapCstr s`               — `CString::new(s).into_raw()`: the bytes followed by one NUL
@@ -96,6 +98,25 @@ def copyCstr (cap : Nat) (s : List Nat) : List Nat :=
 /-- the code before the `fix:` commit (kept for the refutation F35): `n = min(cap, len)`, no boundary search -/
 def copyCstrOld (cap : Nat) (s : List Nat) : List Nat :=
   s.take (min cap s.length) ++ List.replicate (cap - min cap s.length) 0
+
+/-- the bytes `copy_cstr_to_caller(buf, cap, s)` writes, from offset 0 of the CALLER's buffer (capi/src/io.rs, used by
+`chewing_userphrase_get` for both of its buffers; after the `fix:` commit that steps back to a character boundary —
+the same length as `copy_cstr`): nothing when `cap = 0`, else the prefix and one NUL.  The rest of the caller's
+buffer is not touched. -/
+def callerCopy (cap : Nat) (s : List Nat) : List Nat :=
+  if cap = 0 then [] else s.take (copyLen cap s) ++ [0]
+
+/-- the code before that commit (kept for the refutation): `n = min(len, cap - 1)` bytes, cut wherever it falls -/
+def callerCopyOld (cap : Nat) (s : List Nat) : List Nat :=
+  if cap = 0 then [] else s.take (min s.length (cap - 1)) ++ [0]
+
+/-- the bytes `chewing_phone_to_bopomofo(phone, buf, len)` writes from offset 0 of the caller's buffer: the whole text
+and one NUL when `len ≥ text + 1`, nothing otherwise (the return value tells the size needed) -/
+def fitCopy (cap : Nat) (s : List Nat) : List Nat :=
+  if s.length + 1 ≤ cap then s ++ [0] else []
+
+/-- the caller's buffer after a call that wrote `w` from offset 0 over the previous contents `old` -/
+def overwrite (w old : List Nat) : List Nat := w ++ old.drop w.length
 
 /-- the C string a reader sees in a buffer: bytes before the first NUL; `none` = no NUL in the buffer -/
 def cText : List Nat → Option (List Nat)
